@@ -1,9 +1,33 @@
 HOOK_COMMITS = []
 ENGINES = [
-    {"name": "kernel", "path": "mc/kernel.py", "serves_properties": ["C01", "C03", "C05", "C15", "C16"], "kind_free_text": "hand-written bounded exhaustive explorer: units enumerate a finite space (alphabet x bound), sharded over a fork pool; recorder counts evaluations/distinct cases/states/transitions/witnesses; replay files; known-findings triage"},
+    {"name": "kernel", "path": "mc/kernel.py", "serves_properties": ["C01", "C03", "C04", "C05", "C09", "C15", "C16", "C17", "C19"], "kind_free_text": "hand-written bounded exhaustive explorer: units enumerate a finite space (alphabet x bound), sharded over a fork pool; recorder counts evaluations/distinct cases/states/transitions/witnesses; replay files; known-findings triage"},
 ]
 NOT_YET = {}
 CHECKS = {
+    "C04": {
+        "level": "model_checking",
+        "technique": "explicit enumeration of SFNTWriter / TTCollection call protocols (all tag sets, insertion orders, payload lengths, flavours) and of save configurations, judged by an independent spec reader (oracles/otspec.py)",
+        "text": "The writer is driven as a protocol: every sequence of table insertions over tag sets of size <= 4, every permutation, payload-length products, for sfnt/WOFF/WOFF2 (with and without transforms), protocol errors, and TTC saves with and without sharing. Every corpus and generated font is saved under every configuration within the deviation bound (flavour x reorderTables x recalcBBoxes x glyf padding). An independent reader written from the OpenType/WOFF/WOFF2 specifications validates directory order, offsets, padding, checksums, search fields, WOFF/WOFF2 header arithmetic and recomputes every derived field (bboxes, maxp, hhea/vhea, metric counts, loca format) from the saved glyph data.",
+        "note": "Trusted: otspec.py (struct/zlib/brotli only, never imports fontTools). CFF FontBBox is not recomputed; checkSumAdjustment is not demanded inside TTC members (void per spec).",
+    },
+    "C09": {
+        "level": "model_checking",
+        "technique": "exhaustive lattice enumeration against exact Fraction reference models, plus breadth-first exploration of VarStore builder/optimizer operation histories on the real objects",
+        "text": "VariationModel on every master-location set of the lattices (1-3 axes), rebaseTent on every tent x limit x point of rational lattices, iup_delta/iup_delta_optimize against brute force over all 2^n subsets, and all OnlineVarStoreBuilder / optimize / subset_varidxes / prune_regions histories up to depth 4 (5 thorough) with every returned index evaluated through VarStoreInstancer: all compared with exact rational re-implementations written from the OpenType variations specification.",
+        "note": "Trusted: oracles/c09_ref.py (pure Fractions, no fontTools). Lattice denominators <= 16; <= 3 axes; tents with a jump inside the range are outside the property's quantifier and only judged away from the jump.",
+    },
+    "C17": {
+        "level": "exploration",
+        "technique": "exhaustive enumeration of glyph-order permutations (whole symmetric group for small fonts, generators for large ones) and of units-per-em values, with a by-name differential oracle through HarfBuzz",
+        "text": "Every permutation of the glyph order of small generated fonts covering glyf/CFF/CFF2/kern/GSUB/GPOS/GDEF/gvar/HVAR/MVAR, and rotation/reversal/transposition generators for corpus fonts, then save+reload; every font x new upem in {16,...,16384}. A by-glyph-name snapshot (outlines and advances at default and axis extremes, nominal glyphs, shaping of all short strings) taken with HarfBuzz must be unchanged (reorder) or scaled by the factor within the rounding budget (scale).",
+        "note": "Trusted: HarfBuzz 12.1. Scaling budget: 0.5 per rounded quantity that is summed; heavy down-scaling that collapses point structure is compared on extents. CFF delta drift is a recorded known finding.",
+    },
+    "C19": {
+        "level": "model_checking",
+        "technique": "breadth-first exploration of GlyphSet / UFOWriter operation histories on real temporary directories against a dict model, plus exhaustive grammar enumeration of documents, names and axis maps",
+        "text": "All histories of writeGlyph/deleteGlyph/writeContents/reopen/writeLayerInfo over a hostile name alphabet up to depth 3 (4 thorough) are executed on a real GlyphSet and compared with a dict model at every state (read-back, contents.plist vs directory, legality/length/case-uniqueness of file names); same for UFOWriter layers. userNameToFileName on every name sequence x affix lengths; designspace documents by deviation bound from a base document; GLIF records, fontinfo/kerning/groups/lib, UFO 1/2 up-conversion, plist value trees, all monotone axis maps on a lattice.",
+        "note": "Trusted: the dict model and spec-derived expectations in oracles/c19_*.py; the local filesystem (tmpfs).",
+    },
     "C03": {
         "level": "exploration",
         "technique": "exhaustive enumeration of font x dump-option lattice (deviation-bounded configurations) with byte-level round-trip oracle; exhaustive opcode/operand enumeration for instruction assembly",
